@@ -28,6 +28,28 @@ def hostile_literal_frames(rng):
     return out
 
 
+def block_run_frames(rng, thorough):
+    """long runs of RLE / raw blocks (cheap to store, large when regenerated): a budgeted decode call must stop after
+    the block that reaches the budget whatever the block type"""
+    out = []
+    for k, size, kinds in ((40, 131072, 'rle'), (24, 100000, 'rle'), (10, 60000, 'raw'), (16, 131072, 'mixed')) + ((((80, 131072, 'rle'),) if thorough else ())):
+        body, content = b'', b''
+        for i in range(k):
+            ty = {'rle': 1, 'raw': 0}.get(kinds, 1 if (i % 3) else 0)
+            sz = size if ty == 1 else min(size, 50000)
+            if ty == 1:
+                b = rng.below(256)
+                body += framegen.block_header(1 if i == k - 1 else 0, 1, sz) + bytes([b])
+                content += bytes([b]) * sz
+            else:
+                d = rng.bytes(sz)
+                body += framegen.block_header(1 if i == k - 1 else 0, 0, sz) + d
+                content += d
+        f = framegen.frame_header_bytes(window_log=17) + body
+        out.append({'frame': f, 'content': content, 'cls': 'block-run-%s-%dx%d' % (kinds, k, size), 'producer': 'synthetic', 'params': {}})
+    return out
+
+
 def run(chk):
     rng = SplitMix64(chk.seed).fork('C05')
     thorough = chk.tier == 'thorough'
@@ -35,6 +57,7 @@ def run(chk):
     if not prepare(chk):
         return
     frames = hostile_literal_frames(rng)
+    frames += block_run_frames(rng, thorough)
     frames += synth.make_sequence_frames(rng, 120 if thorough else 40, hostile=True)
     frames += [f for f in framegen.make_libzstd_frames(rng, 60 if thorough else 20, 'medium')]
     budgets = [1, 1000, 65536, 300000]
